@@ -63,8 +63,34 @@ def _laws(nj, law, a, b, al, be, dt, per, xi):
     return None
 
 
+def replay_spectra_batching(info, ce):
+    """S_d, S_v, S_a of a period do not depend on which other periods are in the call (periods on either side of 6 dt)"""
+    from eqsig import sdof
+    f = getattr(sdof, info.get('fn', 'pseudo_response_spectra'))
+    rng = np.random.RandomState(8)
+    tried = 0
+    for n in (30, 200):
+        for dt in (0.01, 0.05):
+            acc = rng.randn(n)
+            for xi in (0.0, 0.05, 0.4):
+                full = np.array([0.3 * dt, 2.0 * dt, 4.5 * dt, 6.0 * dt, 30 * dt, 100 * dt])
+                with np.errstate(all='ignore'):
+                    whole = [np.asarray(v) for v in f(acc.copy(), dt, full, xi)]
+                    for part in ([0, 1], [1, 2], [0, 1, 2], [3, 4], [2, 5], [5, 0], [1], [4]):
+                        sub = [np.asarray(v) for v in f(acc.copy(), dt, full[part], xi)]
+                        tried += 1
+                        for q, nm in enumerate(('S_d', 'S_v', 'S_a')):
+                            if sub[q].shape != (len(part),) or np.max(np.abs(sub[q] - whole[q][part])) > 1e-9 * max(1e-30, float(np.max(np.abs(whole[q][part])))):
+                                return dict(status='confirmed', observed={'whole_call': whole[q][part].tolist(), 'sub_list_call': sub[q].tolist()},
+                                            detail='%s: %s of the periods %s depends on which other periods are in the call (dt=%g: 6 dt = %g)' % (info.get('fn'), nm, full[part].tolist(), dt, 6 * dt),
+                                            input={'n': n, 'dt': dt, 'xi': xi, 'periods': full.tolist(), 'sub_list': full[part].tolist(), 'seed': 8})
+    return dict(status='not-reproduced', detail='spectra are independent of batching on %d sub-list calls' % tried)
+
+
 def replay(info, ce):
     from eqsig import sdof
+    if info.get('law') == 'spectra-batching':
+        return replay_spectra_batching(info, ce)
     nj = sdof.nigam_and_jennings_response
     law = info.get('law', 'linearity')
     cases = []
